@@ -7,6 +7,7 @@ import (
 	"sort"
 	"strconv"
 	"strings"
+	"time"
 
 	"github.com/corazawaf/coraza/v3/internal/verif/mc"
 	"github.com/corazawaf/coraza/v3/internal/verif/probe"
@@ -355,6 +356,7 @@ func clip(s string) string {
 }
 
 func checkProgram(c *runner.Ctx, rules []*sm.Rule, pl []int) {
+	defer c.Watch("program", kase{Rules: rules}, 3*time.Minute)()
 	conf := sm.Config(rules)
 	w, err := scen.Build(conf)
 	if err != nil {
